@@ -169,6 +169,8 @@ def allowed(ea: EscapeAnalysis, cls: str) -> bool:
 
 def run(ctx, rep):
     ix, T = ctx.ix, ctx.typer
+    from .common import check_number_finite
+    check_number_finite(ctx, rep, "C16.19")
     for a in SLY_ASSUMPTIONS:
         rep.assume(a)
     rep.assume("only explicit raise statements and the listed implicit-exception idioms are modelled; arbitrary TypeError/KeyError from dynamically typed values and non-termination are not decided")
@@ -409,6 +411,19 @@ def run(ctx, rep):
                         rep.ok("C16.7", cons, "line/column arguments are computed", f"{fi.path}:{n.lineno}")
                     else:
                         rep.violation("C16.7", cons, "JaqalParseError is constructed with a constant position", f"{fi.path}:{n.lineno}")
+
+    # the parser's error callback reports a real position on every path, also at the end of the input
+    perr = pcls.methods.get("error")
+    if perr is not None:
+        cons = construct_of(perr, "position-on-every-path")
+        consts = []
+        for st in iter_stmts(perr.body):
+            if isinstance(st, ast.Assign) and len(st.targets) == 1 and isinstance(st.targets[0], ast.Name) and st.targets[0].id in ("line", "lineno", "col", "column") and isinstance(st.value, ast.Constant):
+                consts.append(st)
+        if consts:
+            rep.violation("C16.7", cons, f"`{ast.unparse(consts[0])}`: at the end of the input the JaqalParseError carries a constant instead of a line and column (`<string>:EOF:0`); a truncated program gets no position", f"{perr.path}:{consts[0].lineno}", witness="register q[")
+        else:
+            rep.ok("C16.7", cons, "line and column are computed on both paths (token / end of input)", perr.loc())
 
     # ------------------------------------------------------------ C16.8
     rep.rule("C16.8", "no history-dependence anti-patterns (mutable default mutated; __init__ as class/static method; module-level container mutated by a reachable function)", floor=1)
@@ -902,6 +917,45 @@ def run(ctx, rep):
     # ------------------------------------------------------------ C16.18
     from .common import check_cached_mutables
     check_cached_mutables(ctx, rep, "C16.18", ["jaqalpaq"])
+
+    # ------------------------------------------------------------ C16.20
+    rep.rule("C16.20", "a pulse module is loaded from a file only after testing that this very file exists, and a directory is listed only after testing that it is one (otherwise FileNotFoundError escapes instead of ImportError)", floor=2)
+    n20 = 0
+    for q in sorted(ea.reachable):
+        f = ix.functions[q]
+        if f.module != "jaqalpaq._import" or isinstance(f.node, ast.Lambda):
+            continue
+        fl20 = None
+        for nd in walk_no_nested(f.node):
+            if not isinstance(nd, ast.Call):
+                continue
+            fname = nd.func.attr if isinstance(nd.func, ast.Attribute) else nd.func.id if isinstance(nd.func, ast.Name) else ""
+            if fname == "spec_from_file_location" and len(nd.args) >= 2:
+                want, what = ast.unparse(nd.args[1]), "is_file"
+            elif fname == "listdir" and nd.args:
+                want, what = ast.unparse(nd.args[0]), "is_dir"
+            else:
+                continue
+            n20 += 1
+            if fl20 is None:
+                fl20 = FuncFlow(ix, T, f)
+            cons = construct_of(f, f"path-tested:{fname}:{want[:30]}")
+            loc = f"{f.path}:{nd.lineno}"
+            tests = list(fl20.control_tests(nd))
+            # an earlier `if not <path>.is_dir(): raise` also guards
+            for st in iter_stmts(f.body):
+                if isinstance(st, ast.If) and st.lineno < nd.lineno and any(isinstance(x, ast.Raise) for x in st.body):
+                    tests.append(st.test)
+
+            def strip(txt):
+                return txt.replace("Path(", "").replace(")", "").replace("(", "").replace(" ", "")
+            ok_ = any(isinstance(m, ast.Call) and isinstance(m.func, ast.Attribute) and m.func.attr == what and strip(ast.unparse(m.func.value)) == strip(want) for t in tests for m in ast.walk(t))
+            if ok_:
+                rep.ok("C16.20", cons, f"`{want}.{what}()` is tested first", loc)
+            else:
+                rep.violation("C16.20", cons, f"`{ast.unparse(nd)[:80]}` is reached without testing `{want}.{what}()`: a pulse-module directory without __init__.py (or a missing import path) raises FileNotFoundError from the parser instead of ImportError", loc, witness="from .mygates usepulses *   (import path holds an empty directory mygates/)")
+    if n20 == 0:
+        raise AnalysisError("C16.20: no file-based module loading found in jaqalpaq._import (anchor vanished)")
 
 
 KNOWN_SUBMODULES = {
